@@ -417,7 +417,7 @@ def _mk_list(c, n, depth=0):
 
 MALFORMED = ["shared_tail", "head_twice", "two_firsts", "missing_rest", "missing_first", "extra_prop", "typed_cell",
              "rest_iri", "rest_literal", "cycle_self", "cycle_head", "cycle_mid", "two_rests", "iri_cell", "nil_props",
-             "tail_ref_by_bnode", "falsy_first_dup", "inner_is_subject_elsewhere"]
+             "tail_ref_by_bnode", "falsy_first_dup", "inner_is_subject_elsewhere", "nil_rest", "self_member"]
 
 
 def _m_list(c, owner=None, kind=None):
@@ -497,6 +497,14 @@ def _m_list(c, owner=None, kind=None):
         set_rest(last, x)
     elif kind == "nil_props":
         c.add(I(NIL), c.pred(), c.obj())
+    elif kind == "nil_rest":          # rdf:nil itself carries list properties (walks must stop at rdf:nil)
+        c.add(I(NIL), I(REST), rng.choice([head, I(NIL), last]))
+        if rng.random() < 0.5:
+            c.add(I(NIL), I(FIRST), c.obj())
+    elif kind == "self_member":       # a cell is a member of its own list
+        cell = rng.choice(cells)
+        c.ts[:] = [t for t in c.ts if not (t[0] == cell and t[1] == I(FIRST))]
+        c.add(cell, I(FIRST), rng.choice(cells))
     elif kind == "inner_is_subject_elsewhere":
         # a bnode cycle owning the list, so the serializer's subject ordering can reach an inner cell first
         a, b = c.bnode(), c.bnode()
